@@ -14,11 +14,12 @@ static long nfail;
 /* apply one update through implementation im */
 static int apply(const struct ecimpl *im, int len, int k, int rows, int vec_i, uint8_t *tbl, uint8_t *src, uint8_t **dst)
 {
+	v_pcall_mode = 1 + (len & 1); /* kernel entered with poisoned caller-saved registers (engine/pcall.S) */
 	if (V_TRY()) {
 		switch (im->kind) {
-		case K_MAD1: ((mad1_fn)im->fn)(len, k, vec_i, tbl, src, dst[0]); break;
-		case K_MADN: ((madn_fn)im->fn)(len, k, vec_i, tbl, src, dst); break;
-		default: ((upd_fn)im->fn)(len, k, rows, vec_i, tbl, src, dst); break;
+		case K_MAD1: PCALL(im->fn, len, k, vec_i, tbl, src, dst[0]); break;
+		case K_MADN: PCALL(im->fn, len, k, vec_i, tbl, src, dst); break;
+		default: PCALL(im->fn, len, k, rows, vec_i, tbl, src, dst); break;
 		}
 		V_END();
 		return 0;
@@ -145,7 +146,8 @@ static void mul_sweep(const char *name, mul_fn f, int N)
 			memset(dst, 0xAA, len);
 			int r = -999;
 			if (V_TRY()) {
-				r = f(len, tbl, src, dst);
+				v_pcall_mode = 1 + (len & 1);
+				r = (int)PCALL(f, len, tbl, src, dst);
 				V_END();
 			} else {
 				snprintf(key, sizeof key, "%s fault len=%d pl=%d", name, len, pl);
